@@ -284,6 +284,21 @@ static int check_bessel_args(arglist *al, int flags, const char *arg_name) {
     return check_result(al, value); \
   }
 
+/* Same as WRAP, but reports an evaluation error unless cond holds: for these
+   parameters GSL does not return (rejection loops, unbounded recursion). */
+#define WRAP_IF(func, args, cond) \
+  static double ampl##func(arglist *al) { \
+    if (!check_args(al)) \
+      return 0; \
+    if (!(cond)) { \
+      eval_error(al); \
+      return 0; \
+    } \
+    if (al->derivs) \
+      deriv_error(al, DERIVS_NOT_PROVIDED); \
+    return check_result(al, func(args)); \
+  }
+
 #define UNUSED(x) (void)(x)
 
 static const char *amplgsl_version(arglist *al) {
@@ -2754,7 +2769,7 @@ WRAP(gsl_cdf_laplace_Q, ARGS2)
 WRAP(gsl_cdf_laplace_Pinv, ARGS2)
 WRAP(gsl_cdf_laplace_Qinv, ARGS2)
 
-WRAP(gsl_ran_exppow, RNG_ARGS2)
+WRAP_IF(gsl_ran_exppow, RNG_ARGS2, al->ra[0] > 0 && al->ra[1] > 0)
 WRAP(gsl_ran_exppow_pdf, ARGS3)
 WRAP(gsl_cdf_exppow_P, ARGS3)
 WRAP(gsl_cdf_exppow_Q, ARGS3)
@@ -2783,7 +2798,7 @@ WRAP(gsl_ran_levy, RNG_ARGS2)
 WRAP(gsl_ran_levy_skew, RNG_ARGS3)
 
 WRAP(gsl_ran_gamma, RNG_ARGS2)
-WRAP(gsl_ran_gamma_knuth, RNG_ARGS2)
+WRAP_IF(gsl_ran_gamma_knuth, RNG_ARGS2, al->ra[0] > 0 && al->ra[1] > 0)
 WRAP(gsl_ran_gamma_pdf, ARGS3)
 
 static double amplgsl_cdf_gamma_P(arglist *al) {
@@ -2843,12 +2858,12 @@ WRAP(gsl_cdf_tdist_Q, ARGS2)
 WRAP(gsl_cdf_tdist_Pinv, ARGS2)
 WRAP(gsl_cdf_tdist_Qinv, ARGS2)
 
-WRAP(gsl_ran_beta, RNG_ARGS2)
+WRAP_IF(gsl_ran_beta, RNG_ARGS2, al->ra[0] > 0 && al->ra[1] > 0)
 WRAP(gsl_ran_beta_pdf, ARGS3)
 WRAP(gsl_cdf_beta_P, ARGS3)
 WRAP(gsl_cdf_beta_Q, ARGS3)
-WRAP(gsl_cdf_beta_Pinv, ARGS3)
-WRAP(gsl_cdf_beta_Qinv, ARGS3)
+WRAP_IF(gsl_cdf_beta_Pinv, ARGS3, al->ra[1] > 0 && al->ra[2] > 0)
+WRAP_IF(gsl_cdf_beta_Qinv, ARGS3, al->ra[1] > 0 && al->ra[2] > 0)
 
 WRAP(gsl_ran_logistic, RNG_ARGS1)
 WRAP(gsl_ran_logistic_pdf, ARGS2)
@@ -2929,7 +2944,8 @@ WRAP_DISCRETE(gsl_ran_binomial_pdf, BINOMIAL_ARGS, BINOMIAL_ARGNAMES)
 WRAP_DISCRETE(gsl_cdf_binomial_P, BINOMIAL_ARGS, BINOMIAL_ARGNAMES)
 WRAP_DISCRETE(gsl_cdf_binomial_Q, BINOMIAL_ARGS, BINOMIAL_ARGNAMES)
 
-WRAP(gsl_ran_negative_binomial, RNG_ARGS2)
+WRAP_IF(gsl_ran_negative_binomial, RNG_ARGS2,
+    al->ra[0] > 0 && al->ra[0] <= 1 && al->ra[1] > 0)
 WRAP_DISCRETE(gsl_ran_negative_binomial_pdf, ARGS3, DEFAULT_ARGS)
 WRAP_DISCRETE(gsl_cdf_negative_binomial_P, ARGS3, DEFAULT_ARGS)
 WRAP_DISCRETE(gsl_cdf_negative_binomial_Q, ARGS3, DEFAULT_ARGS)
@@ -2937,6 +2953,10 @@ WRAP_DISCRETE(gsl_cdf_negative_binomial_Q, ARGS3, DEFAULT_ARGS)
 static double amplgsl_ran_pascal(arglist *al) {
   if (!check_args(al) || !check_uint_arg(al, 1, "n"))
     return 0;
+  if (!(al->ra[0] > 0 && al->ra[0] <= 1)) {
+    eval_error(al);
+    return 0;
+  }
   if (al->derivs)
     deriv_error(al, DERIVS_NOT_PROVIDED);
   return check_result(al, gsl_ran_pascal(rng, al->ra[0], (unsigned)al->ra[1]));
